@@ -26,6 +26,9 @@ EXPLANATION = (
     "ValueError. Not decided: wall-clock promptness (z_point scans backwards: quadratic on M(l z)*n), and totality of "
     "every later operation on a partially built path."
 )
+TECHNIQUE = (
+    "static analysis (no execution): nullness of lexer operands at builder calls (value tracking + token-language implications decided on regex automata); tokenizer loop summaries per token alternative (progress); ValueError-only raise lint; callee nullness summaries"
+)
 ASSUMPTIONS = [
     "Implicit exceptions from interpreter internals (MemoryError, RecursionError) are out of scope.",
     "Monotone-failure reasoning relies on leftmost matching at one position of num_re/flag_re as spelled in the module; the "
